@@ -534,7 +534,13 @@ func (e *CEnv) local(name string) (CVal, bool) {
 		best = d
 	}
 	if best == nil {
-		return CVal{}, false
+		// the variable exists but is not defined on this path (an early return): any value
+		d := refs[0]
+		t := d.X.Type()
+		if d.IsAddr {
+			t = t.Underlying().(*types.Pointer).Elem()
+		}
+		return CVal{T: fv.c.Fresh("undef!"+name, fv.g.sortOf(t)), S: fv.g.sortOf(t), Typ: t}, true
 	}
 	sv := fv.val(best.X)
 	if best.IsAddr {
@@ -952,6 +958,8 @@ func (e *CEnv) call(x *ast.CallExpr) CVal {
 	case "held":
 		m := arg(0)
 		return CVal{T: not(eq(sel(e.fv.heapGet(e.st, "G|held"), m.T), "0")), S: sBool, Typ: boolT}
+	case "waited":
+		return CVal{T: eq(sel(e.fv.heapGet(e.st, "G|waited"), arg(0).T), "1"), S: sBool, Typ: boolT}
 	case "wgcount":
 		return CVal{T: sel(e.fv.heapGet(e.st, "G|wg"), arg(0).T), S: sInt}
 	case "buf":
@@ -1074,12 +1082,22 @@ func (e *CEnv) call(x *ast.CallExpr) CVal {
 		if !ok {
 			cfail("called(Callee)")
 		}
-		for _, ec := range e.fv.errCalls {
-			if sc := shortCallee(ec.callee); sc == id.Name || strings.HasSuffix(sc, "."+id.Name) {
-				if hit, ok := e.st.heap[fmt.Sprintf("X|%d", ec.id)]; ok {
-					return CVal{T: hit, S: sBool, Typ: boolT}
+		var hits []string
+		for sc, flags := range e.fv.callFlags {
+			n := sc
+			if i := strings.Index(n, "["); i > 0 {
+				n = n[:i]
+			}
+			if n == id.Name || strings.HasSuffix(n, "."+id.Name) {
+				for _, f := range flags {
+					if hit, ok := e.st.heap[f]; ok {
+						hits = append(hits, hit)
+					}
 				}
 			}
+		}
+		if len(hits) > 0 {
+			return CVal{T: or(hits...), S: sBool, Typ: boolT}
 		}
 		return CVal{T: "false", S: sBool, Typ: boolT}
 	case "min":
